@@ -281,7 +281,8 @@ type verifC18Seq struct {
 	cfg   verifC18Cfg
 	t     Tester
 	c     *CachedLivenessTester
-	life  [2]time.Duration // [0]=non-live [1]=live; 0 = caching of that verdict disabled
+	life  [2]time.Duration // [0]=non-live [1]=live: the configured lifetime (may be zero or negative: nothing is ever young enough)
+	on    [2]bool          // caching of that verdict is configured (duration string not empty)
 	capa  [2]int
 	naddr int // addresses in play (the reference's tables are reset up to here)
 
@@ -319,6 +320,7 @@ func (s *verifC18Seq) verifReset(cfg verifC18Cfg) error {
 	}
 	s.cfg, s.t, s.c = cfg, t, c
 	s.life = [2]time.Duration{verifC18Life(cfg.DurNon), verifC18Life(cfg.DurLive)}
+	s.on = [2]bool{cfg.DurNon != "", cfg.DurLive != ""}
 	s.capa = [2]int{cfg.CapNon, cfg.CapLive}
 	s.nextKind, s.calls = 0, s.calls[:0]
 	s.now = 0
@@ -388,7 +390,7 @@ func (s *verifC18Seq) verifAfter(st verifC18StepRec) {
 	s.trace = append(s.trace, st)
 	lens := [2]int16{st.LenN, st.LenL}
 	for v := 0; v < 2; v++ {
-		if s.life[v] > 0 && s.capa[v] > 0 && int(lens[v]) > s.capa[v] {
+		if s.on[v] && s.capa[v] > 0 && int(lens[v]) > s.capa[v] {
 			s.verifViol(s.verifBoundSig("len", v), fmt.Sprintf("the %s cache has a configured capacity of %d but holds %d entries at a quiescent point", verifC18VName[v], s.capa[v], lens[v]))
 		}
 	}
@@ -445,7 +447,7 @@ func (s *verifC18Seq) verifQuery(ai int, kind int, port uint16) {
 			pr = &s.prod[ai][v]
 		}
 		switch {
-		case s.life[v] == 0:
+		case !s.on[v]:
 			s.verifViol("hit:disabled-cache:"+vn, fmt.Sprintf("%s answered from the cache as %s although caching of %s verdicts is disabled", addr, vn, vn))
 		case pr != nil && pr.live != gotLive:
 			s.verifViol("hit:flipped:"+vn, fmt.Sprintf("%s answered from the cache as %s by an entry that was produced by a measurement whose verdict was %s (probe returned %s)",
@@ -458,7 +460,7 @@ func (s *verifC18Seq) verifQuery(ai int, kind int, port uint16) {
 			s.verifViol("hit:evicted:"+vn, fmt.Sprintf("%s answered from the %s cache although the cache's LRU no longer held it (evicted or removed)", addr, vn))
 		}
 		s.served[v].verifSet(ai)
-		if s.capa[v] > 0 && s.life[v] > 0 && s.served[v].verifCount() > s.capa[v] {
+		if s.capa[v] > 0 && s.on[v] && s.served[v].verifCount() > s.capa[v] {
 			s.verifViol(s.verifBoundSig("served", v), fmt.Sprintf("%d distinct addresses were answered from the %s cache (capacity %d) with no probe in between", s.served[v].verifCount(), vn, s.capa[v]))
 		}
 	} else {
@@ -646,6 +648,9 @@ func (t *verifC18Tally) verifCountInto(rec *kit.Rec) {
 
 // ---- phase 1: every history up to length L ----------------------------------------------------------
 
+// every one of these parses (time.ParseDuration) and is a configured, enabled cache
+var verifC18NonPositive = []string{"0s", "0", "-5m", "-1ns", "1ns"}
+
 func verifC18ExhaustiveCfgs() (full, shorter []verifC18Cfg) {
 	S, L := verifC18Short, verifC18Long
 	// live-only and non-live-only: map (0) and LRU capacities 1..3, both lifetimes
@@ -677,6 +682,18 @@ func verifC18ExhaustiveCfgs() (full, shorter []verifC18Cfg) {
 		for c := 1; c <= 3; c++ {
 			shorter = append(shorter, verifC18Cfg{DurNon: d, CapNon: c, CapLive: c})
 			shorter = append(shorter, verifC18Cfg{DurLive: d, CapLive: c, CapNon: c})
+		}
+	}
+	// lifetimes that nothing can be younger than (zero, negative, in every string form the parser accepts) and 1 ns:
+	// age >= 0 >= lifetime, so such a cache must never answer
+	for _, d := range verifC18NonPositive {
+		for _, c := range []int{0, 2} {
+			shorter = append(shorter,
+				verifC18Cfg{DurLive: d, CapLive: c},
+				verifC18Cfg{DurNon: d, CapNon: c},
+				verifC18Cfg{DurLive: d, CapLive: c, DurNon: S, CapNon: c},
+				verifC18Cfg{DurLive: S, CapLive: c, DurNon: d, CapNon: c},
+				verifC18Cfg{DurLive: d, CapLive: c, DurNon: d, CapNon: c})
 		}
 	}
 	return
@@ -921,6 +938,11 @@ func TestVerifC18Boundary(t *testing.T) {
 		for _, p := range pairs {
 			cfgs = append(cfgs, verifC18Cfg{DurLive: p[0], CapLive: kind, DurNon: p[1], CapNon: kind})
 		}
+		// lifetimes nothing can be younger than (and 1 ns): queried at ages 0 … 3 h
+		for _, L := range verifC18NonPositive {
+			cfgs = append(cfgs, verifC18Cfg{DurLive: L, CapLive: kind}, verifC18Cfg{DurNon: L, CapNon: kind},
+				verifC18Cfg{DurLive: L, CapLive: kind, DurNon: L, CapNon: kind}, verifC18Cfg{DurLive: "40m", CapLive: kind, DurNon: L, CapNon: kind})
+		}
 	}
 	var earlyMu sync.Mutex
 	earlyByFrac := map[string]int{}
@@ -937,14 +959,21 @@ func TestVerifC18Boundary(t *testing.T) {
 		seenAge := map[time.Duration]bool{}
 		for v := 0; v < 2; v++ {
 			L := [2]time.Duration{verifC18Life(cfg.DurNon), verifC18Life(cfg.DurLive)}[v]
-			if L == 0 {
+			if [2]string{cfg.DurNon, cfg.DurLive}[v] == "" {
 				continue
 			}
 			add := func(d time.Duration, desc string) {
-				if !seenAge[d] {
+				if d >= 0 && !seenAge[d] {
 					seenAge[d] = true
 					ages = append(ages, age{d, desc})
 				}
+			}
+			if L <= time.Nanosecond {
+				// every age is >= such a lifetime (harness age 0 against 1 ns is the one exception, and real time covers it or not: not charged)
+				for _, d := range []time.Duration{0, 1, time.Second, 20 * time.Minute, time.Hour, 2*time.Hour - 1, 2 * time.Hour, 3 * time.Hour} {
+					add(d, fmt.Sprintf("%v against the %s lifetime %v", d, verifC18VName[v], L))
+				}
+				continue
 			}
 			for _, f := range verifC18Fractions {
 				add(time.Duration(float64(L)*f), fmt.Sprintf("%.3f × %s lifetime %v", f, verifC18VName[v], L))
@@ -1047,7 +1076,7 @@ func TestVerifC18Random(t *testing.T) {
 	const length = 200
 	s := &verifC18Seq{naddr: 8}
 	ports := []uint16{443, 443, 443, 80, 8443}
-	durs := []string{"", "", verifC18Short, verifC18Long, verifC18Short, verifC18Long, "90s", "2h", "2s"}
+	durs := []string{"", "", verifC18Short, verifC18Long, verifC18Short, verifC18Long, "90s", "2h", "2s", "0s", "-5m", "0", "1ns"}
 	for i := 0; i < n; i++ {
 		cfg := verifC18RandCfg(rng, durs)
 		hseed := rng.Int63()
@@ -1164,8 +1193,8 @@ func TestVerifC18Concurrent(t *testing.T) {
 	written := map[string]int{}
 
 	for sc := 0; sc < scenarios; sc++ {
-		cfg := verifC18RandCfg(rng, []string{"", verifC18Short, verifC18Long})
-		if sc < 8 { // make sure the small bounded LRUs and the mixed configurations are always there
+		cfg := verifC18RandCfg(rng, []string{"", verifC18Short, verifC18Long, verifC18Short, verifC18Long, "0s", "-5m"})
+		if sc < 11 { // make sure the small bounded LRUs and the mixed configurations are always there
 			cfg = []verifC18Cfg{
 				{DurLive: verifC18Short, CapLive: 1, DurNon: verifC18Long, CapNon: 1},
 				{DurLive: verifC18Long, CapLive: 2, DurNon: verifC18Short, CapNon: 3},
@@ -1175,6 +1204,9 @@ func TestVerifC18Concurrent(t *testing.T) {
 				{DurNon: verifC18Long, CapNon: 2},
 				{DurLive: verifC18Short, CapLive: 3, DurNon: verifC18Long},
 				{},
+				{DurLive: "0s", DurNon: "0"},
+				{DurLive: "-5m", CapLive: 2, DurNon: verifC18Short, CapNon: 2},
+				{DurNon: "0s", CapNon: 3},
 			}[sc]
 		}
 		naddr := 2 + rng.Intn(5)
@@ -1214,6 +1246,7 @@ func TestVerifC18Concurrent(t *testing.T) {
 		}
 		life := [2]time.Duration{verifC18Life(cfg.DurNon), verifC18Life(cfg.DurLive)}
 		capa := [2]int{cfg.CapNon, cfg.CapLive}
+		on := [2]bool{cfg.DurNon != "", cfg.DurLive != ""}
 		boundSig := func(v int) string {
 			if v == 1 {
 				return "bound:len:live"
@@ -1333,7 +1366,7 @@ func TestVerifC18Concurrent(t *testing.T) {
 					v := verifC18B2I(h.live)
 					vn := verifC18VName[v]
 					addr := verifC18Addrs[h.ai]
-					if life[v] == 0 {
+					if !on[v] {
 						report("hit:disabled-cache:"+vn, fmt.Sprintf("%s answered from the cache as %s although caching of %s verdicts is disabled", addr, vn, vn), map[string]interface{}{"round": round})
 						continue
 					}
@@ -1361,7 +1394,7 @@ func TestVerifC18Concurrent(t *testing.T) {
 			if cached != nil {
 				cs := [2]cache{cached.ipCacheNonLive, cached.ipCacheLive}
 				for v := 0; v < 2; v++ {
-					if cs[v] != nil && life[v] > 0 && capa[v] > 0 {
+					if cs[v] != nil && on[v] && capa[v] > 0 {
 						if n := cs[v].Len(); n > capa[v] {
 							report(boundSig(v), fmt.Sprintf("the %s cache has a configured capacity of %d but holds %d entries at a quiescent point", verifC18VName[v], capa[v], n), map[string]interface{}{"round": round})
 						}
